@@ -85,8 +85,14 @@ def check(rep, an, tier):
                           entry="ReceptorEstimator.capture", config=res.config,
                           msg=f"{p} is bound to {sorted(v.flat().data) if v is not None else 'nothing'}")
         R.rule_dtype_casts(rep, res, "ReceptorEstimator.capture")
-        R.rule_effect_free(rep, res, "ReceptorEstimator.capture")
+        R.rule_effect_free(rep, res, "ReceptorEstimator.capture", reg=_reg(an))
         v = res.value.flat()
+        must = set(v.tags.get("must_data", v.data))
+        for o in ("signals", "self.filters"):
+            rep.check("R-FLOW", f"the capture is computed from {o} on every path", o in must, where=res.fn.loc(), construct=f"{o} → result of capture",
+                      entry="ReceptorEstimator.capture", config=res.config,
+                      msg=f"on some path the returned capture does not depend on `{o}` (a stored matrix is returned instead of the integral of "
+                          f"filter × signal): it goes stale when the registered state it was taken from changes")
         rep.check("R-SHAPE", "capture returns (signals, filters)", None if v.shape is None else v.shape == S("S", "F"), where=res.fn.loc(),
                   construct="return of capture", entry="ReceptorEstimator.capture", config=res.config, msg=f"computed {v.shape}")
     R.rule_api(rep, results)
@@ -188,3 +194,8 @@ def gradient_weights(rep, res, entry):
             rep.violated("R-FLOW", "trapezoid end weights are half steps", where=ev.loc, construct=ev.text(), entry=entry, config=res.config,
                          msg="np.gradient(domain) gives (x[i+1]-x[i-1])/2 in the interior — the trapezoid weight — but FULL steps at both ends; "
                              "used as quadrature weights it double-counts the first and last sample")
+
+
+def _reg(an):
+    from .C14 import registration_writes
+    return registration_writes(an)
